@@ -78,3 +78,7 @@ Fixpoint diagnose (w : world) (steps : list stepobs) (i : nat) : option diag :=
                                            (filter (fun d => negb (obs_ok w' d)) (so_dumps s)) |}
       end
   end.
+
+(* [history agrees; history stayed inside the model] in one evaluation *)
+Definition hist_vec (steps : list stepobs) (final : list ltable) : list bool :=
+  let c := check_history steps final in [negb (Nat.eqb c 1); negb (Nat.eqb c 2)].
